@@ -473,3 +473,73 @@ func SliceElems(v ssa.Value) ([]ssa.Value, bool) {
 	}
 	return out, true
 }
+
+// FreeVarBinding returns what a closure's free variable is bound to at its (single) MakeClosure site.
+func FreeVarBinding(fv *ssa.FreeVar) ssa.Value {
+	fn := fv.Parent()
+	idx := -1
+	for i, f := range fn.FreeVars {
+		if f == fv {
+			idx = i
+		}
+	}
+	if idx < 0 || fn.Parent() == nil {
+		return nil
+	}
+	var bound ssa.Value
+	n := 0
+	for _, pf := range WithAnon(rootOf(fn)) {
+		AllInstrs(pf, func(in ssa.Instruction) {
+			if mc, ok := in.(*ssa.MakeClosure); ok && mc.Fn == fn && idx < len(mc.Bindings) {
+				bound = mc.Bindings[idx]
+				n++
+			}
+		})
+	}
+	if n != 1 {
+		return nil
+	}
+	if fv2, ok := bound.(*ssa.FreeVar); ok {
+		return FreeVarBinding(fv2)
+	}
+	return bound
+}
+
+// CellOf returns the variable cell (Alloc) a value is loaded from, following closure captures; nil if v is not such a load.
+func CellOf(v ssa.Value) *ssa.Alloc {
+	u, ok := v.(*ssa.UnOp)
+	if !ok || u.Op != token.MUL {
+		return nil
+	}
+	switch c := u.X.(type) {
+	case *ssa.Alloc:
+		return c
+	case *ssa.FreeVar:
+		if b, ok := FreeVarBinding(c).(*ssa.Alloc); ok {
+			return b
+		}
+	}
+	return nil
+}
+
+// CellStores returns the values stored into a cell anywhere (the defining function and closures that captured it).
+func CellStores(al *ssa.Alloc) []ssa.Value {
+	var out []ssa.Value
+	for _, r := range *al.Referrers() {
+		if st, ok := r.(*ssa.Store); ok && st.Addr == ssa.Value(al) {
+			out = append(out, st.Val)
+		}
+	}
+	for _, pf := range WithAnon(rootOf(al.Parent())) {
+		for _, fv := range pf.FreeVars {
+			if FreeVarBinding(fv) == ssa.Value(al) {
+				for _, r := range *fv.Referrers() {
+					if st, ok := r.(*ssa.Store); ok && st.Addr == ssa.Value(fv) {
+						out = append(out, st.Val)
+					}
+				}
+			}
+		}
+	}
+	return out
+}
